@@ -177,6 +177,36 @@ func ruleC17ClientOrder(c *Ctx) {
 					bad = u.ipos(i)
 				}
 			})
+			// element writes (swaps, rotations) into the configured slice outside the constructors
+			allInstrs(f, func(i ssa.Instruction) {
+				st, ok := i.(*ssa.Store)
+				if !ok {
+					return
+				}
+				ia, isIA := st.Addr.(*ssa.IndexAddr)
+				if !isIA {
+					// field of an element: &m.Clients[i].X = … (changing which region an entry denotes)
+					if fa, isFA := st.Addr.(*ssa.FieldAddr); isFA {
+						ia, isIA = fa.X.(*ssa.IndexAddr)
+					}
+					if !isIA {
+						return
+					}
+				}
+				ap := trimAddr(accessPath(ia.X))
+				if !strings.HasSuffix(ap, "."+spec.field) {
+					return
+				}
+				okc := false
+				for _, ct := range append(spec.ctors, "sortClients") {
+					if rootFunc(f).Name() == ct {
+						okc = true
+					}
+				}
+				if !okc {
+					bad = u.ipos(i) + " (an element of the configured client list is overwritten in " + trimPkgDirs(shortName(f)) + ": the preferred-first order established at construction is lost for all later calls)"
+				}
+			})
 			// in-place reordering of the slice elsewhere
 			allInstrs(f, func(i ssa.Instruction) {
 				if g := staticCallee(i); g != nil && g.Pkg != nil && g.Pkg.Pkg.Path() == "sort" && g.Name() != "init" {
